@@ -24,9 +24,9 @@ import (
 )
 
 type wkind struct {
-	Target  string   `json:"target"` // queue | exec | task
-	Point   string   `json:"point"`  // poll:popped poll:timer poll:ctx poll:ignore poll:timer2 task:polled task:checked
-	Due     string   `json:"due"`    // past | soon
+	Target  string   `json:"target"`             // queue | exec | task
+	Point   string   `json:"point"`              // poll:popped poll:timer poll:ctx poll:ignore poll:timer2 task:polled task:checked
+	Due     string   `json:"due"`                // past | soon
 	SFC     bool     `json:"reach_fc,omitempty"` // flags of the Shutdown that leads to the ctx / ignore / timer2 points
 	SFI     bool     `json:"reach_fi,omitempty"`
 	Actions []string `json:"actions"` // cancel cancel2 tcancel tcancel2 replace sd-none sd-ignore sd-cancel
@@ -521,7 +521,7 @@ func runWindow(k wkind) wres {
 		case n == 0 && status[id] == wMust:
 			res.Why = append(res.Why, fmt.Sprintf("element %d was neither cancelled nor discarded but not delivered within 5 s after its time", id))
 		case n >= 1 && status[id] == wMustNot:
-			res.Why = append(res.Why, fmt.Sprintf("element %d delivered although its cancellation/replacement had completed before Poll decided to return it", id))
+			res.Why = append(res.Why, fmt.Sprintf("element %d delivered although its cancellation/replacement had completed while it was still pending (the worker was held before the decision to return / start it)", id))
 		}
 		if n >= 1 && !ignoreIssued && st2[id].Before(due[id]) {
 			res.Why = append(res.Why, fmt.Sprintf("element %d delivered %v before its time", id, due[id].Sub(st2[id])))
